@@ -207,10 +207,10 @@ Proof.
 Qed.
 
 Lemma zeros_digits k : all_digits (zeros k).
-Proof. induction k; constructor; [unfold dec_digit; lia|assumption]. Qed.
+Proof. induction k as [|k IHk]; constructor; [unfold dec_digit; lia|exact IHk]. Qed.
 
 Lemma fold_dstep_zeros k : fold_left dstep (zeros k) 0 = 0.
-Proof. induction k; [reflexivity|]. cbn [zeros repeat fold_left]. exact IHk. Qed.
+Proof. induction k as [|k IHk]; [reflexivity|]. cbn [zeros repeat fold_left]. exact IHk. Qed.
 
 Lemma digits_val_zeros k s : digits_val (zeros k ++ s) = digits_val s.
 Proof. unfold digits_val. rewrite fold_left_app. fold dstep. rewrite fold_dstep_zeros. reflexivity. Qed.
@@ -330,7 +330,7 @@ Proof.
 Qed.
 
 Lemma hex_digits_zeros k s : hex_digits 0 (zeros k ++ s) = hex_digits 0 s.
-Proof. induction k; [reflexivity|]. cbn [zeros repeat app hex_digits]. exact IHk. Qed.
+Proof. induction k as [|k IHk]; [reflexivity|]. cbn [zeros repeat app hex_digits]. exact IHk. Qed.
 
 Lemma hex_alone casing n k : 0 <= n <= i64_max ->
   tokenize (48%N :: 120%N :: zeros k ++ hex casing n) = Ok [TInt n].
@@ -939,9 +939,10 @@ Lemma literal_ident w second third :
   literal_to_token w second third = (TIdentifier w, 1%nat).
 Proof.
   intros H1 H2 H3 H4. unfold literal_to_token. rewrite H1, H2, H3.
-  destruct second as [[]|]; try reflexivity; destruct third as [[]|]; try reflexivity.
-  - pose proof (H4 false s eq_refl eq_refl) as E. cbn [sign_char] in E. rewrite E. reflexivity.
-  - pose proof (H4 true s eq_refl eq_refl) as E. cbn [sign_char] in E. rewrite E. reflexivity.
+  destruct second as [[tk2|lit2| | | | | | | | | | | | | ]|]; try reflexivity;
+    destruct third as [[tk3|lit3| | | | | | | | | | | | | ]|]; try reflexivity.
+  - pose proof (H4 false lit3 eq_refl eq_refl) as E. cbn [sign_char] in E. rewrite E. reflexivity.
+  - pose proof (H4 true lit3 eq_refl eq_refl) as E. cbn [sign_char] in E. rewrite E. reflexivity.
 Qed.
 
 Lemma ident_outside_known w :
